@@ -15,6 +15,13 @@ E3  ... and the recorded trace (action, thread, returned position, size_, buffer
     shouldDealloc_[], cachedPtrs_[] consistency, live element per slot, cv::alloc / dealloc calls) is
     validated by TLC against the spec (CVecTrace.tla), all invariants on.
 E4  seeded random controlled schedules of random programs over all 36 trait combinations.
+E5  free-running rounds (drv_cvec --stress): 2-4 real threads grow one fresh vector truly concurrently
+    (no controller, inert hook points, random trait combination, first bucket 1/2/4, random programs
+    of push_back / emplace_back / grow_by* / grow_by_generator / grow_to_at_least, sometimes a reader
+    of the initial elements); one observation record per round (returned positions and size() in
+    per-thread program order, final size and contents, reference/iterator mismatch counters, element
+    lifetime counters), validated by TLC against spec/cvec/CVecObs.tla: the windows INSIDE a step of
+    CVec.tla (e.g. a fetch_add split into load + store) that the controlled engines cannot open.
 """
 import json
 import os
@@ -178,7 +185,23 @@ def run(ctx):
         ctx.validate(SPEC, 'CVecTrace.tla', 'CVecTrace.cfg', alltr, WHAT, executions=execs,
                      label='cover + random traces', timeout=3000)
 
+    # E5: free-running rounds (real threads, inert hooks): races inside one step of CVec.tla -------
+    obs = os.path.join(ctx.work, 'stress.ndjson')
+    rounds = 32000 if thorough else 2000
+    tot, _ = ctx.driver(exe, ['--out', obs, '--stress', rounds, '--seed', ctx.seed], WHAT,
+                        label='free-running growth rounds, all trait combinations', allow_incomplete=True,
+                        timeout=1500)
+    if tot.get('executions'):
+        ctx.validate(SPEC, 'CVecObs.tla', 'CVecObs.cfg', obs, WHAT, executions=tot.get('completed', 0),
+                     label='free-running rounds: distinct indices, exact final size, no overwrite, stable references',
+                     timeout=3000)
+    ctx.cov['free_running_rounds'] = tot.get('completed', 0)
+
     ctx.assumptions += [
+        'free-running rounds (E5): per round only what the public API returns is observed (returned positions and '
+        'size() in per-thread program order, final size/contents after the join, mismatch counters of references and '
+        'iterators taken earlier, element lifetime counters); no cross-thread order is recorded; a round that does '
+        'not finish within 10 s of wall-clock time counts as a hang',
         'TLA+ interleaving semantics are sequentially consistent (weak-memory effects are C10)',
         'only growth operations and reads of already published elements run concurrently (the documented '
         'concurrency-safe subset); elements 1..n0 are pushed by the constructing thread before the threads start',
